@@ -303,6 +303,24 @@ def pred_c04(L):
     for p in at:
         if p not in gt:
             bad.append('HOGs placed at a taxon without a genome')
+    # the number of ancestral genes at a taxon equals the number of family lineages crossing it: a lineage (edge of a
+    # family hierarchy from a HOG at q to a child at r) crosses every node strictly between q and r as well
+    crossing = Counter()
+    for p, os_ in at.items():
+        crossing[p] += len(os_)
+    for h in d.top_sx:
+        for x in core.all_hogs_sx(h):
+            q = P(x[2])
+            for _, c_ in x[4]:
+                r = P(c_[2])
+                if is_anc(q, r):
+                    for k in range(1, len(r) - len(q)):
+                        crossing[tuple(r[k:])] += 1
+    for p, n_ in crossing.items():
+        have = len([r for r in gt[p][2] if r[0] == 'h']) if p in gt and gt[p][0] != 'extant' else 0
+        if have != n_:
+            bad.append('%d family lineage(s) cross %s but its ancestral genome lists %d gene(s)'
+                       % (n_, d.node_at[p].name if p in d.node_at else list(p), have))
     if set(gt.keys()) != (d.leaves | d.internals):
         bad.append('taxonomy genome sets differ from the nodes carrying a genome')
     gs = list(d.genome_at.values())
@@ -1282,19 +1300,25 @@ def check_C15(ctx):
             for g in h.get_all_descendant_genes()[:3]:
                 if ham.get_hog_by_gene(g) is not h:
                     bad.append('get_hog_by_gene does not return the family of the gene')
-        for g in ham.get_list_extant_genomes():
-            if ham.get_extant_genome_by_name(g.name) is not g:
-                bad.append('get_extant_genome_by_name does not return the listed genome')
-            if ham.get_taxon_by_name(g.name) is not g.taxon:
-                bad.append('get_taxon_by_name does not return the genome\'s node')
-        ags = ham.get_list_ancestral_genomes()
-        for g in ags:
-            if ham.get_ancestral_genome_by_name(g.name) is not g:
-                bad.append('get_ancestral_genome_by_name does not return the listed genome')
-            if ham.get_ancestral_genome_by_taxon(g.taxon) is not g:
-                bad.append('get_ancestral_genome_by_taxon does not return the listed genome')
-            if ham.get_taxon_by_name(g.name) is not g.taxon:
-                bad.append('get_taxon_by_name does not return the ancestral genome\'s node')
+        def genome_coherence(when):
+            for g in ham.get_list_extant_genomes():
+                if ham.get_extant_genome_by_name(g.name) is not g:
+                    bad.append('get_extant_genome_by_name does not return the listed genome' + when)
+                if ham.get_taxon_by_name(g.name) is not g.taxon:
+                    bad.append('get_taxon_by_name does not return the genome\'s node' + when)
+            ags_ = ham.get_list_ancestral_genomes()
+            for g in ags_:
+                try:
+                    if ham.get_ancestral_genome_by_name(g.name) is not g:
+                        bad.append('get_ancestral_genome_by_name does not return the listed genome' + when)
+                    if ham.get_ancestral_genome_by_taxon(g.taxon) is not g:
+                        bad.append('get_ancestral_genome_by_taxon does not return the listed genome' + when)
+                    if ham.get_taxon_by_name(g.name) is not g.taxon:
+                        bad.append('get_taxon_by_name does not return the ancestral genome\'s node' + when)
+                except KeyError as e:
+                    bad.append('lookup of a listed ancestral genome raises KeyError%s: %s' % (when, e))
+            return ags_
+        ags = genome_coherence('')
         allg = ags + ham.get_list_extant_genomes()
         # genome sets of two to four members, in any relative position (a member may be an ancestor of others)
         for _ in range(16):
@@ -1327,6 +1351,35 @@ def check_C15(ctx):
         for nd, p in d.path.items():
             if p not in d.genome_at and not nd.is_leaf() and not expect_keyerror(ham.get_ancestral_genome_by_taxon, nd):
                 bad.append('lookup by a taxon without genome does not raise KeyError')
+        # genomes created on demand (lateral comparisons, whole-dataset profile) are listed afterwards: the lookups
+        # must return them as well (the lookups above ran first, so anything they memoised is now out of date)
+        if not bad:
+            ext = sorted(ham.get_list_extant_genomes(), key=lambda g_: g_.name)
+            n_before = len(ham.get_list_ancestral_genomes())
+            try:
+                for _ in range(3):
+                    if len(ext) >= 2:
+                        ham.compare_genomes_lateral(*ctx.rng.sample(ext, 2))
+                if ctx.rng.random() < 0.5:
+                    ham.create_tree_profile()
+            except Exception as e:  # noqa
+                bad.append('lateral comparison / tree profile fails: %s' % type(e).__name__)
+            created = len(ham.get_list_ancestral_genomes()) - n_before
+            ctx.dist['genomes_created_on_demand=%d' % min(created, 3)] += 1
+            ags2 = genome_coherence(' (after genomes were created on demand)')
+            d2 = impl.Dump(ham)
+            for g in ags2:
+                below = [x for x in ext if is_anc(d2.path[g.taxon], d2.path[x.taxon])]
+                if len(below) >= 2:
+                    pair = ctx.rng.sample(below, 2)
+                    mp = gen.mrca_paths([d2.path[x.taxon] for x in pair])
+                    try:
+                        got = ham.get_ancestral_genome_by_mrca_of_genome_set(set(pair))
+                        if d2.path[got.taxon] != mp:
+                            bad.append('MRCA lookup returns a genome at another node than the common ancestor (after genomes were created on demand)')
+                    except KeyError:
+                        if mp in d2.genome_at:
+                            bad.append('MRCA lookup raises KeyError although the common ancestor has a genome (after genomes were created on demand)')
         if bad:
             ctx.violation(bad[0], {'case': case_json(L.case), 'failures': bad[:10]})
             continue
